@@ -155,6 +155,11 @@ def _find_search_optimizations(filters):
     prohibited_ids = set()
 
     for filter_ in filters:
+        if filter_.op == "in" and isinstance(filter_.value, str):
+            # "in" a string is a substring test: no set of allowed values can
+            # be derived from it.
+            continue
+
         if filter_.property == "type":
             if filter_.op in ("=", "in"):
                 allowed_types = _update_allow(allowed_types, filter_.value)
